@@ -29,6 +29,7 @@ EXTENDS Integers, Sequences, FiniteSets, TLC
 
 CONSTANTS Keys,            \* contents
           Initial,         \* contents stored (loose, durable, acknowledged) before the actors start
+          InitialPacked,   \* sequence of contents already packed (durable, indexed) before the actors start
           WriterAdds,      \* sequence of contents the writer adds
           ReaderWants,     \* set of contents the reader asks for
           ReaderPinned,    \* the reader's session already holds a snapshot (taken before everything)
@@ -69,12 +70,14 @@ Range(s) == {s[i] : i \in DOMAIN s}
 Init ==
     /\ loose = [k \in Keys |-> IF k \in Initial THEN "good" ELSE "absent"]
     /\ looseSynced = [k \in Keys |-> k \in Initial]
-    /\ sbx = Nil /\ pk = <<>> /\ pkSynced = 0 /\ pbuf = <<>> /\ idx = {} /\ pend = {}
-    /\ snapP = {} /\ pinP = FALSE /\ snapR = {} /\ pinR = ReaderPinned /\ lockf = FALSE
+    /\ sbx = Nil /\ pk = InitialPacked /\ pkSynced = Len(InitialPacked) /\ pbuf = <<>>
+    /\ idx = {[k |-> InitialPacked[i], pos |-> i] : i \in DOMAIN InitialPacked} /\ pend = {}
+    /\ snapP = {} /\ pinP = FALSE /\ pinR = ReaderPinned /\ lockf = FALSE
+    /\ snapR = IF ReaderPinned THEN {[k |-> InitialPacked[i], pos |-> i] : i \in DOMAIN InitialPacked} ELSE {}
     /\ wpc = "w_start" /\ wi = 1 /\ wexists = FALSE
     /\ rpc = "r_start" /\ rhits = {} /\ rmiss = {} /\ rres = [k \in Keys |-> "none"]
     /\ ppc = "p_list" /\ plist = {} /\ ptodo = <<>> /\ pdone = {} /\ pclean = {}
-    /\ acked = Initial /\ rstarted = {} /\ dead = {} /\ faults = 0 /\ power = FALSE /\ lastActor = "-"
+    /\ acked = Initial \cup {InitialPacked[i] : i \in DOMAIN InitialPacked} /\ rstarted = {} /\ dead = {} /\ faults = 0 /\ power = FALSE /\ lastActor = "-"
 
 -----------------------------------------------------------------------------
 (* Writer: ObjectWriter (utils.py:326-495)                                  *)
